@@ -202,6 +202,11 @@ def readme():
                 stat['undecided'] += c['exit'] == 2
                 stat['missed'] += c['exit'] == 0
         trig = re.sub(r'\s+', ' ', m.get('needs_to_manifest', ''))[:260]
+        if m.get('benign'):
+            try:
+                trig = re.sub(r'\s+', ' ', open(os.path.join(SEEDED, n, 'author_notes.md')).read())[:260]
+            except OSError:
+                pass
         (brows if m.get('benign') else rows).append(f"| {n} | {m['property']} | {trig} | {'; '.join(det) or 'not run'} |")
     txt = ('# Seeded changes\n\nEach directory holds `patch.diff` (applies to /repo with `git -C /repo apply`), the demonstration `demo.rs` (an integration test that '
            'fails with the change and passes without it), `meta.json` (what was confirmed and how, and what the checks reported) and the author\'s notes. '
